@@ -82,6 +82,7 @@ func c10Route(r *Run, rawPeer bool) {
 
 	plans := map[string]c10Plan{}
 	paceMs := map[string]int{}
+	cpMaxPages := map[string]int{}
 	for i := 0; i < K; i++ {
 		for j := 0; j < M; j++ {
 			p := c10Plan{pages: 1}
@@ -91,6 +92,7 @@ func c10Route(r *Run, rawPeer bool) {
 			}
 			tag := fmt.Sprintf("q%d.%d", i, j)
 			paceMs[tag] = T.DrawP("pacems", 40, 0.5)
+			cpMaxPages[tag] = []int{0, 0, 16, 1}[T.Draw("cp.maxpages", 3)] // 0 means "no limit"
 			if overflowMode && T.Bool("overflow.this", 0.5) {
 				// the stream of pages outlasts the moment the request fails: late pages keep arriving while
 				// other requests are being sent (and ids are being recycled)
@@ -271,7 +273,14 @@ func c10Route(r *Run, rawPeer bool) {
 				for j := 0; j < M; j++ {
 					rec := &c10Req{tag: fmt.Sprintf("q%d.%d", i, j)}
 					reqs = append(reqs, rec)
-					rec.req, rec.sendErr = cc.Send(queryFrame(v, client.ManagedStreamId, rec.tag))
+					qf := queryFrame(v, client.ManagedStreamId, rec.tag)
+					if plans[rec.tag].pages > 1 || (v.IsDse() && len(rec.tag)%2 == 0) {
+						// a DSE continuous-paging request carries its paging options (0 = no page limit)
+						q := qf.Body.Message.(*message.Query)
+						q.Options.PageSize = 100
+						q.Options.ContinuousPagingOptions = &message.ContinuousPagingOptions{MaxPages: int32(cpMaxPages[rec.tag]), PagesPerSecond: 0}
+					}
+					rec.req, rec.sendErr = cc.Send(qf)
 					r.Yield("sender.sent")
 					if rec.sendErr != nil || rec.req == nil {
 						r.Event("%s refused", rec.tag)
